@@ -218,6 +218,10 @@ func (s *PScn) materialise(dir string) error {
 				continue
 			}
 			content := fmt.Sprintf("package %s\n", p.Dir)
+			if strings.HasPrefix(e, pipeBase+".") && strings.HasSuffix(e, ".go") {
+				// an output of an earlier generation, longer than anything this run writes
+				content += "\n" + strings.Repeat("// line of an earlier generation\nvar _ = 0\n\n", 30)
+			}
 			switch {
 			case strings.HasSuffix(e, "_test.go"):
 			case strings.HasSuffix(e, ".go"):
@@ -372,6 +376,9 @@ func (g *recState) do(c gengo.Context, pkg, typ string, isAlias bool) error {
 		return gengo.ErrIgnore
 	case 'f':
 		return errors.New("failed")
+	case 'p':
+		var m map[string]int
+		m[typ] = 1 // the generator dies with a run-time panic
 	}
 	return nil
 }
